@@ -413,7 +413,7 @@ func (s *streamGRPC) RecvMsg(m interface{}) error {
 	}
 	isCompressed := b[0] == 1
 	size := binary.BigEndian.Uint32(b[1:])
-	if int(size) > s.opts.maxReceiveMessageSize {
+	if int64(size) > int64(s.opts.maxReceiveMessageSize) {
 		return fmt.Errorf("grpc: received message larger than max (%d vs. %d)", size, s.opts.maxReceiveMessageSize)
 	}
 
